@@ -63,7 +63,18 @@ def check_case(case):
     pts = [(x, y)] + [tuple(p) for p in case["extra"]]
     xs = np.array([p[0] for p in pts])
     ys = np.array([p[1] for p in pts])
+    xs0, ys0 = xs.copy(), ys.copy()
     lats, lons = xy_to_latlon(xs, ys, rl, ro)  # array form
+    if not (np.array_equal(xs, xs0) and np.array_equal(ys, ys0)):
+        out.bad("xy_to_latlon modified the coordinate arrays passed to it")
+        xs, ys = xs0, ys0
+    if lats is xs or lons is ys or lats is ys or lons is xs:
+        out.bad("xy_to_latlon returned one of its argument arrays")
+    same = np.array([p[0] for p in pts])
+    la2, lo2 = xy_to_latlon(same, same, rl, ro)  # one array for both coordinates
+    la3, lo3 = xy_to_latlon(same.copy(), same.copy(), rl, ro)
+    if not (np.array_equal(la2, la3) and np.array_equal(lo2, lo3)):
+        out.bad("xy_to_latlon(a, a, ...) differs from xy_to_latlon(a.copy(), a.copy(), ...)")
     if np.shape(lats) != xs.shape or np.shape(lons) != xs.shape:
         out.bad(f"array inverse returns shapes {np.shape(lats)}, {np.shape(lons)} for input {xs.shape}")
     else:
